@@ -38,7 +38,7 @@ Section Final.
     destruct (match lk with LkR => load_item_cache g cb c h (key_of g f) | LkW => LMiss end) as [d| |];
       cbn [o_cache]; try exact Hsb.
     destruct (derive (g_ver g) (f_bytes f)) as [d|] eqn:Ed; cbn [o_cache]; [|exact Hsb].
-    destruct cl; cbn [o_cache]; auto using sound_store, sound_clean.
+    destruct (g_cw g), cl; cbn [o_cache]; auto using sound_store, sound_clean.
   Qed.
 
   (* ---------------------------------------------------------------- manipulations of the cache by others *)
@@ -277,9 +277,9 @@ Module Example.
   Lemma ex_stat_ok : stat_ok U.
   Proof. intros f1 f2 H1 H2 _ Ht. unfold U in *. lia. Qed.
 
-  Definition gH := mkCfg MHash LIn 1 true.
-  Definition gS := mkCfg MStat LIn 1 true.
-  Definition gS_sub := mkCfg MStat (LSub 1) 1 false.
+  Definition gH := mkCfg MHash LIn 1 true true.
+  Definition gS := mkCfg MStat LIn 1 true true.
+  Definition gS_sub := mkCfg MStat (LSub 1) 1 false true.
 
   Definition fA := mkFile 5 40 50.      (* current content of (1, 7) *)
   Definition fOld := mkFile 4 40 40.    (* earlier content of the same name, same size *)
@@ -336,6 +336,12 @@ Module Example.
   Example ex_hit : o_evs (get derive gS LkR false ex_files
                            (adv_apply (APlant LIn 1 7 (EOk (KStat 1 40 50) 1005)) ex_cache) 1 7) = [EvHit].
   Proof. reflexivity. Qed.
+
+  (* the cache location can not be written: the freshly built content is served, nothing is stored *)
+  Example ex_get_unwritable :
+    let o := get derive (mkCfg MHash LIn 1 true false) LkR false ex_files ex_cache 1 7 in
+    o_res o = GItem 1005 /\ o_evs o = [EvMiss; EvStoreFail; EvClean] /\ clook (o_cache o) LIn 1 7 = Some (EOk (KHash 1 4) 1004).
+  Proof. repeat split; reflexivity. Qed.
 
   (* an unsound cache really changes the answer, so cache_sound is not a decoration *)
   Example ex_unsound : o_res (get derive gH LkR false ex_files [((LIn, 1, 7), EOk (KHash 1 5) 4242)] 1 7) = GItem 4242.
